@@ -242,4 +242,61 @@ theorem encode_length_bounds (p : List Nat) : p.length + 2 ≤ (encode p).length
 
 example : (encode [cEND, cESC, 7]).count cEND = 2 := encode_end_count _
 
+/-! ## Truncation safety -/
+
+theorem readGo_no_end : ∀ (s acc : List Nat) (e : Bool), (∀ x ∈ s, x ≠ cEND) → (readGo s acc e).2.1 = false
+  | [], acc, e, _ => by cases e <;> simp [readGo]
+  | c :: rest, acc, true, h => by
+    rw [readGo]; exact readGo_no_end rest _ false (fun x hx => h x (by simp [hx]))
+  | b :: rest, acc, false, h => by
+    have hb : b ≠ cEND := h b (by simp)
+    have hr : ∀ x ∈ rest, x ≠ cEND := fun x hx => h x (by simp [hx])
+    rw [readGo, if_neg hb]
+    by_cases h3 : b = cESC
+    · rw [if_pos h3]; exact readGo_no_end rest _ true hr
+    · rw [if_neg h3]; exact readGo_no_end rest _ false hr
+
+/-- A proper prefix of one packet's wire bytes never yields a complete packet. -/
+theorem readPacket_truncated (p : List Nat) (k : Nat) (hk : k < (encode p).length) :
+    (readPacket ((encode p).take k)).2.1 = false := by
+  unfold readPacket
+  cases k with
+  | zero => simp [readGo]
+  | succ j =>
+    have hlen : (encode p).length = (p.flatMap stuff).length + 2 := by simp [encode]
+    have hj : j ≤ (p.flatMap stuff).length := by omega
+    have : (encode p).take (j + 1) = cEND :: (p.flatMap stuff).take j := by
+      unfold encode
+      rw [List.take_succ_cons, List.take_append_of_le_length hj]
+    rw [this, readGo_end_nil]
+    exact readGo_no_end _ _ _ (fun x hx => stuffed_no_end p x (List.mem_of_mem_take hx))
+
+/-- Truncation safety: cut the byte stream of any packet sequence at ANY point — the reader
+delivers, as complete packets, exactly a prefix of what was sent (never a corrupted or invented
+packet). -/
+theorem stream_truncation_safe (ps : List (List Nat)) (h : ∀ p ∈ ps, p ≠ []) (k : Nat) :
+    (readAll ((ps.flatMap encode).take k)).1 <+: ps := by
+  induction ps generalizing k with
+  | nil => 
+    have h0 : readAll [] = ([], []) := readAll_incomplete (p := []) (r := []) (by simp [readPacket, readGo])
+    simp [h0]
+  | cons p ps ih =>
+    have hp : p ≠ [] := h p (by simp)
+    have hps : ∀ q ∈ ps, q ≠ [] := fun q hq => h q (by simp [hq])
+    rw [List.flatMap_cons, List.take_append]
+    by_cases hk : k < (encode p).length
+    · have hz : k - (encode p).length = 0 := by omega
+      rw [hz, List.take_zero, List.append_nil]
+      have hf := readPacket_truncated p k hk
+      have : readAll ((encode p).take k) = ([], (readPacket ((encode p).take k)).1) := by
+        apply readAll_incomplete (r := (readPacket ((encode p).take k)).2.2)
+        rw [← hf]
+      rw [this]; exact List.nil_prefix
+    · have hfull : (encode p).take k = encode p := List.take_of_length_le (by omega)
+      rw [hfull, readAll_complete (read_encode p _ hp)]
+      exact List.prefix_cons_inj p |>.mpr (ih hps _)
+
+example : (readAll (([[1, cEND], [2]].flatMap encode).take 6)).1 <+: [[1, cEND], [2]] :=
+  stream_truncation_safe _ (by decide) 6
+
 end WaVerif.C25
